@@ -100,7 +100,7 @@ func AddInbox(in []*Inbox, i *Inbox) []*Inbox {
 		return []*Inbox{i}
 	}
 	for _, v := range in {
-		if v.Key == i.Key {
+		if v != nil && v.Key == i.Key {
 			*v = *i // copy in place
 			return in
 		}
